@@ -190,6 +190,10 @@ func (s *safetyRun) nonNilTerm(t *flow.Term, facts []*flow.Term) (bool, string) 
 		if a && c.Op == flow.OpBin && c.Name == "==" && (flow.Eq(flow.StripConv(c.Args[0]), flow.StripConv(t.Args[2])) || flow.Eq(flow.StripConv(c.Args[1]), flow.StripConv(t.Args[2]))) {
 			return true, "defaulted when nil"
 		}
+		// ite(x != nil, x, fresh): the same idiom with the test the other way round
+		if b && c.Op == flow.OpBin && c.Name == "!=" && (flow.Eq(flow.StripConv(c.Args[0]), flow.StripConv(t.Args[1])) || flow.Eq(flow.StripConv(c.Args[1]), flow.StripConv(t.Args[1]))) {
+			return true, "defaulted when nil"
+		}
 		return a && b, "both arms non-nil"
 	case flow.OpRes:
 		c := flow.StripConv(t.Args[0])
